@@ -32,7 +32,8 @@ def alphabet():
         for pr in (1.0, 2.0):
             for hint in (True, False):
                 ops.append(("ins", x, pr, hint))
-    ops += [("best",), ("clear",), ("refill",), ("find", 0.1), ("find", 0.5), ("find", 0.9), ("rewrite", 0, 3.0), ("rewrite", 1, 0.5)]
+    ops += [("best",), ("clear",), ("refill",), ("find", 0.1), ("find", 0.5), ("find", 0.9), ("rewrite", 0, 3.0), ("rewrite", 1, 0.5),
+            ("rewrite", 0, 0.9999995)]      # a near-tie of the queued priority 1.0: the queued entry is stale all the same
     if True:
         ops.append(("bestlocal",))
     return ops
@@ -260,6 +261,13 @@ def run_case(c):
             h = Harness(cls, ml)
             nops = int(rng.integers(5, 200 if q % 4 == 0 else 60))
             prios = [float(v) for v in rng.integers(-3, 6, 6)] + [float(v) for v in rng.normal(size=8)]
+            if q % 3 == 0:
+                # near-ties: characteristics that differ from a queued priority in the 6th..12th digit, and tiny magnitudes
+                base = list(prios[:6])
+                prios += [b * (1.0 + float(d)) for b in base[:3] for d in (1e-6, -1e-6, 3e-12)]
+                prios += [b + float(d) for b in base[3:] for d in (2e-9, -5e-10)]
+                prios += [4e-9, 1e-9, -2e-9, 0.0, 5e-324, float(np.nextafter(1.0, 2.0))]
+                obs["near_tie_histories"] = obs.get("near_tie_histories", 0) + 1
             hist = []
             try:
                 for k in range(nops):
